@@ -7,6 +7,7 @@
    - internal/file/der.go: parseDERData (trial order); internal/file/parsers.go: ASN1File,
      Base64ASN1File, PEMFile; internal/file/pem.go: parsePEMBlock;
    - internal/file/identifier.go: isBinaryASN1, IsBase64ASN1, IsMixedPEM;
+   - internal/file/info.go: the read limit of Inspect (MaxReadSize);
    - cmd/decipher/main.go: inspectFile / inspectStdin.
 
    crypto/x509.ParseCertificate, the attribute builders, the generic dump (parseASN1Data),
@@ -366,6 +367,13 @@ Definition b64_file (L : lib) (text : bytes) : result info :=
   end.
 Definition route_b64 := b64_file.
 
+(* internal/file/identifier.go isBinaryASN1: one value, nothing after it *)
+Definition is_asn1 (d : bytes) : bool :=
+  match parse_header d with
+  | Some (h, after) => N.of_nat (length after) =? h_len h
+  | None => false
+  end.
+
 (* ================= internal/file/pem.go ================= *)
 (* strings.ToUpper as far as the comparison with the ASCII labels can tell: ASCII letters,
    and the two non-ASCII runes whose upper case is ASCII (U+0131 -> I, U+017F -> S).
@@ -376,13 +384,6 @@ Fixpoint to_upper_go (l : bytes) : bytes :=
   | 197 :: 191 :: r => 83 :: to_upper_go r
   | c :: r => to_upper_ascii c :: to_upper_go r
   | [] => []
-  end.
-
-Definition or_unknown_pem (r : result info) : result info :=
-  match r with
-  | Ok i => Ok i
-  | Err _ => Ok unknown_pem
-  | Panic p => Panic p
   end.
 
 Definition label_parser (L : lib) (u : bytes) : option (bytes -> result info) :=
@@ -397,12 +398,27 @@ Definition label_parser (L : lib) (u : bytes) : option (bytes -> result info) :=
   else if bytes_eqb u (bs "OPENSSH PRIVATE KEY") then Some (l_openssh L)
   else None.
 
-(* pem.go:10 parsePEMBlock *)
-Definition parse_pem_block (L : lib) (typ body : bytes) : result info :=
+(* pem.go unparsedCertificate (repair of C05-F3): the content of a CERTIFICATE block that
+   crypto/x509 rejects is described as the same bytes are when they arrive as DER (ASN1File),
+   if they are one ASN.1 value at all *)
+Definition unparsed_cert (L : lib) (body : bytes) : result info :=
+  if is_asn1 body then asn1_file L body else Ok unknown_pem.
+Definition is_cert_label (u : bytes) : bool :=
+  bytes_eqb u (bs "CERTIFICATE") || bytes_eqb u (bs "TRUSTED CERTIFICATE").
+
+(* pem.go parsePEMBlock.  [f3 = false] is the code before the repair of C05-F3 (every labelled parser's
+   error gave "unknown PEM data"), kept selectable so that its refutation stays checkable *)
+Definition parse_pem_block_gen (f3 : bool) (L : lib) (typ body : bytes) : result info :=
   match label_parser L (to_upper_go typ) with
-  | Some p => or_unknown_pem (p body)
+  | Some p =>
+      match p body with
+      | Ok i => Ok i
+      | Err _ => if f3 && is_cert_label (to_upper_go typ) then unparsed_cert L body else Ok unknown_pem
+      | Panic s => Panic s
+      end
   | None => Ok unknown_pem
   end.
+Definition parse_pem_block : lib -> bytes -> bytes -> result info := parse_pem_block_gen true.
 
 Fixpoint map_result {A B} (f : A -> result B) (l : list A) : result (list B) :=
   match l with
@@ -428,12 +444,7 @@ Definition pem_file (L : lib) (blocks : list (bytes * bytes)) : result info :=
   end.
 
 (* ================= internal/file/identifier.go ================= *)
-(* isBinaryASN1: one value, nothing after it *)
-Definition is_asn1 (d : bytes) : bool :=
-  match parse_header d with
-  | Some (h, after) => N.of_nat (length after) =? h_len h
-  | None => false
-  end.
+(* (isBinaryASN1 = is_asn1: defined above, pem.go uses it too) *)
 Definition is_b64_asn1 (text : bytes) : bool :=
   match decode_any text with Ok d => is_asn1 d | _ => false end.
 Definition is_mixed_pem (d : bytes) : bool :=
@@ -534,6 +545,14 @@ Definition cert_oracle_ok (L : lib) (k : nat) (d : bytes) : bool :=
   | _, _ => false
   end.
 
+(* ================= internal/file/info.go: how much of a file Inspect reads ================= *)
+Definition max_read_size : N := 128000000.          (* info.go:28 MaxReadSize = 128 * units.Megabyte *)
+Fixpoint read_limited (limit : N) (data : bytes) : bytes :=   (* io.LimitReader + io.ReadAll *)
+  match data with
+  | [] => []
+  | x :: r => if limit =? 0 then [] else x :: read_limited (N.pred limit) r
+  end.
+
 (* ================= the dispatcher instantiated with these routes ================= *)
 Section Routes.
   Variable L : lib.
@@ -578,6 +597,11 @@ Section Routes.
         | Panic p => Panic p
         end
     end.
+
+  (* internal/file/info.go Inspect: io.ReadAll(io.LimitReader(f, MaxReadSize)) — the dispatcher is
+     applied to the first [limit] bytes of the file, i.e. to the WHOLE file when it is no longer *)
+  Definition inspect_read (limit : N) (name data : bytes) : result info :=
+    inspect_file name (read_limited limit data).
 End Routes.
 
 (* ================= what the routes need from the format table ================= *)
